@@ -360,6 +360,8 @@ def replay_b(v):
             elif op["o"] == "closeall":
                 from ZConfig.components.logger import loghandler
                 loghandler.closeFiles()
+            elif op["o"] == "closeone":
+                ids[op["h"] - 1].close()
             elif op["o"] == "drop":
                 h = ids[op["h"] - 1]
                 for n in names:
